@@ -99,6 +99,14 @@ CHECKS["C12"] = dict(
          "real Molecules compared with the model.",
     design="5 C12", technique="Lean 4 proof (invariant by induction over histories) + history correspondence")
 
+CHECKS["C13"] = dict(
+    text="Theorems: to_file / from_file choose the same format for every suffix string (Parquet iff "
+         ".pq/.parquet); written columns are z,y,x,zvec,yvec,xvec then the features; colliding names are "
+         "rejected; from_dataframe(to_dataframe(t)) returns the same coordinate and feature columns for any "
+         "row count. polars readers/writers and float32 rotation vectors are parameters, exercised by real "
+         "file round trips.",
+    design="5 C13", technique="Lean 4 proof over a named-column frame model + real file round-trip correspondence")
+
 NOT_YET = {}
 
 
